@@ -54,6 +54,10 @@ pub enum TimestampError {
 impl Timestamp {
     /// Returns the current timestamp.
     pub fn now() -> Self {
+        #[cfg(rpgp_verif)]
+        if let Some(secs) = verif_clock::tick() {
+            return Self(secs);
+        }
         SystemTime::now()
             .try_into()
             .expect("now is too far into the future")
@@ -67,6 +71,40 @@ impl Timestamp {
     /// Creates a new [`Timestamp`] from seconds since the [`UNIX_EPOCH`].
     pub fn from_secs(secs: u32) -> Self {
         Self(secs)
+    }
+}
+
+/// Simulated clock for deterministic simulation (only with `--cfg rpgp_verif`).
+///
+/// When a value is set on the current thread, [`Timestamp::now`] returns it instead of reading
+/// the system clock, then advances it by the configured step (wrapping).
+#[cfg(rpgp_verif)]
+pub mod verif_clock {
+    use std::cell::Cell;
+
+    thread_local! {
+        static CLOCK: Cell<Option<(u32, i64)>> = const { Cell::new(None) };
+        static READS: Cell<u64> = const { Cell::new(0) };
+    }
+
+    /// Set (or clear) the simulated clock of this thread: `(seconds, step added per read)`.
+    pub fn set(v: Option<(u32, i64)>) {
+        CLOCK.with(|c| c.set(v));
+    }
+
+    /// Number of times `Timestamp::now()` was called on this thread.
+    pub fn reads() -> u64 {
+        READS.with(|c| c.get())
+    }
+
+    pub(super) fn tick() -> Option<u32> {
+        READS.with(|c| c.set(c.get() + 1));
+        CLOCK.with(|c| {
+            let (now, step) = c.get()?;
+            let next = (i64::from(now) + step).rem_euclid(1i64 << 32) as u32;
+            c.set(Some((next, step)));
+            Some(now)
+        })
     }
 }
 
